@@ -194,6 +194,7 @@ def run_selftest(prop: str, repo: str, mutants: List[Mutant], floor: int, jobs: 
         shutil.rmtree(scratch, ignore_errors=True)
     results.append(rename_locals_twin(prop, repo))
     results.append(commute_twin(prop, repo))
+    results.extend(mechanical_twins(prop, repo))
     results.extend(refactor_twins(prop, repo))
     if mutants:
         with ProcessPoolExecutor(max_workers=jobs) as ex:
@@ -354,3 +355,205 @@ def rename_locals_twin(prop: str, repo: str):
             return ("twin:rename-all-locals", "analysis-error", f"{type(e).__name__}: {e}")
     finally:
         shutil.rmtree(scratch, ignore_errors=True)
+
+
+# ---------------------------------------------------------------------------------------------------
+# Mechanical restructuring twins (whole package). Each is an exact semantic identity of Python; the unedited test suite was run
+# once on each transformed tree (see DESIGN 10.3). The property's check must stay silent on all of them.
+def _always_exits(body) -> bool:
+    if not body:
+        return False
+    last = body[-1]
+    if isinstance(last, (ast.Return, ast.Raise, ast.Continue, ast.Break)):
+        return True
+    if isinstance(last, ast.If):
+        return bool(last.orelse) and _always_exits(last.body) and _always_exits(last.orelse)
+    return False
+
+
+def _negate(test):
+    if isinstance(test, ast.UnaryOp) and isinstance(test.op, ast.Not):
+        return test.operand
+    return ast.UnaryOp(op=ast.Not(), operand=test)
+
+
+class _IfFlipper(ast.NodeTransformer):
+    """`if c: A else: B` -> `if not c: B else: A` (an elif chain becomes a nested if in the else arm first);
+    `a if c else b` -> `b if not c else a`."""
+
+    def visit_If(self, node):
+        self.generic_visit(node)
+        if node.orelse:
+            node.test, node.body, node.orelse = _negate(node.test), node.orelse, node.body
+        return node
+
+    def visit_IfExp(self, node):
+        self.generic_visit(node)
+        node.test, node.body, node.orelse = _negate(node.test), node.orelse, node.body
+        return node
+
+
+class _GuardToElse(ast.NodeTransformer):
+    """`if c: ...; return x` followed by the rest of the block  ->  `if c: ...; return x  else: <rest>` (also for raise /
+    continue / break exits), in every block, innermost first."""
+
+    def _block(self, body):
+        out = []
+        for i, st in enumerate(body):
+            if isinstance(st, ast.If) and not st.orelse and _always_exits(st.body) and i < len(body) - 1:
+                rest = self._block(body[i + 1:])
+                st.orelse = rest
+                out.append(st)
+                return out
+            out.append(st)
+        return out
+
+    def generic_visit(self, node):
+        super().generic_visit(node)
+        for field in ("body", "orelse", "finalbody"):
+            b = getattr(node, field, None)
+            if isinstance(b, list) and b and isinstance(b[0], ast.stmt):
+                setattr(node, field, self._block(b))
+        return node
+
+
+class _ElseToGuard(ast.NodeTransformer):
+    """`if c: A (always exits) else: B`  ->  `if c: A` followed by B, in every block."""
+
+    def _block(self, body):
+        out = []
+        for st in body:
+            if isinstance(st, ast.If) and st.orelse and _always_exits(st.body):
+                rest = st.orelse
+                st.orelse = []
+                out.append(st)
+                out.extend(self._block(rest))
+            else:
+                out.append(st)
+        return out
+
+    def generic_visit(self, node):
+        super().generic_visit(node)
+        for field in ("body", "orelse", "finalbody"):
+            b = getattr(node, field, None)
+            if isinstance(b, list) and b and isinstance(b[0], ast.stmt):
+                setattr(node, field, self._block(b))
+        return node
+
+
+class _TempExtractor(ast.NodeTransformer):
+    """Inside functions: for a simple statement `t = f(a0, a1, k=v)` / `return f(...)` / `f(...)` whose callee is a plain dotted
+    name, the leading non-trivial arguments are evaluated into fresh temporaries first, in order:
+    `_x1 = a0; _x2 = a1; t = f(_x1, _x2, k=v)`. Evaluation order is unchanged (a dotted-name lookup has no effect; extraction
+    stops at the first argument that cannot be moved)."""
+
+    def __init__(self):
+        self.n = 0
+        self.depth = 0
+
+    def visit_FunctionDef(self, node):
+        self.depth += 1
+        self.generic_visit(node)
+        self.depth -= 1
+        for field in ("body",):
+            node.body = self._block(node.body)
+        return node
+
+    visit_AsyncFunctionDef = visit_FunctionDef
+
+    def visit_Lambda(self, node):
+        return node
+
+    def _plain(self, e):
+        while isinstance(e, ast.Attribute):
+            e = e.value
+        return isinstance(e, ast.Name)
+
+    def _trivial(self, e):
+        return isinstance(e, (ast.Constant, ast.Name)) or (isinstance(e, ast.Attribute) and self._plain(e)) or \
+            (isinstance(e, ast.UnaryOp) and isinstance(e.operand, ast.Constant))
+
+    def _movable(self, e):
+        bad = (ast.Lambda, ast.ListComp, ast.SetComp, ast.DictComp, ast.GeneratorExp, ast.Yield, ast.YieldFrom, ast.Await,
+               ast.NamedExpr, ast.Starred, ast.JoinedStr)
+        return not any(isinstance(x, bad) for x in ast.walk(e))
+
+    def _extract(self, st, call):
+        pre = []
+        if not (isinstance(call, ast.Call) and self._plain(call.func)):
+            return pre
+        slots = [("a", i) for i in range(len(call.args))] + [("k", i) for i in range(len(call.keywords))]
+        for kind, i in slots:
+            e = call.args[i] if kind == "a" else call.keywords[i].value
+            if kind == "k" and call.keywords[i].arg is None:
+                break
+            if self._trivial(e):
+                continue
+            if not self._movable(e):
+                break
+            self.n += 1
+            nm = f"_xt{self.n}"
+            pre.append(ast.copy_location(ast.Assign(targets=[ast.Name(id=nm, ctx=ast.Store())], value=e), st))
+            ref = ast.copy_location(ast.Name(id=nm, ctx=ast.Load()), e)
+            if kind == "a":
+                call.args[i] = ref
+            else:
+                call.keywords[i].value = ref
+        return pre
+
+    def _block(self, body):
+        out = []
+        for st in body:
+            for field in ("body", "orelse", "finalbody"):
+                b = getattr(st, field, None)
+                if isinstance(b, list) and b and isinstance(b[0], ast.stmt) and not isinstance(st, (ast.FunctionDef, ast.AsyncFunctionDef, ast.ClassDef)):
+                    setattr(st, field, self._block(b))
+            if isinstance(st, ast.Try):
+                for h in st.handlers:
+                    h.body = self._block(h.body)
+            if isinstance(st, (ast.With, ast.AsyncWith)):
+                pass
+            pre = []
+            if isinstance(st, ast.Assign) and len(st.targets) == 1 and isinstance(st.targets[0], ast.Name):
+                pre = self._extract(st, st.value)
+            elif isinstance(st, ast.Return) and st.value is not None:
+                pre = self._extract(st, st.value)
+            elif isinstance(st, ast.Expr):
+                pre = self._extract(st, st.value)
+            out.extend(pre)
+            out.append(st)
+        return out
+
+
+def _whole_package_twin(name: str, make, prop: str, repo: str):
+    scratch = make_scratch(repo)
+    try:
+        pk = os.path.join(scratch, "src/pydrobert/torch")
+        for fn in os.listdir(pk):
+            if fn.endswith(".py"):
+                p = os.path.join(pk, fn)
+                with open(p, encoding="utf-8") as f:
+                    tree = ast.parse(f.read())
+                tree = make().visit(tree)
+                ast.fix_missing_locations(tree)
+                with open(p, "w", encoding="utf-8") as f:
+                    f.write(ast.unparse(tree))
+        try:
+            v, k = run_prop_on(prop, scratch)
+            return (name, "ok" if not v else "twin-fired", "; ".join(f"{o.rule}/{o.clause} {o.construct}" for o in v[:4]))
+        except Exception as e:
+            return (name, "analysis-error", f"{type(e).__name__}: {e}")
+    finally:
+        shutil.rmtree(scratch, ignore_errors=True)
+
+
+MECHANICAL_TWINS = [
+    ("twin:flip-if-else", _IfFlipper),
+    ("twin:guard-clauses-to-else", _GuardToElse),
+    ("twin:else-to-guard-clauses", _ElseToGuard),
+    ("twin:extract-argument-temporaries", _TempExtractor),
+]
+
+
+def mechanical_twins(prop: str, repo: str):
+    return [_whole_package_twin(n, mk, prop, repo) for n, mk in MECHANICAL_TWINS]
